@@ -57,6 +57,9 @@ META = dict(
 META["rule"] += (
     " " + 'Added later: `cache_clear()` / `clear_cache()` as neutral steps of a history (every answer must stay what it is).')
 
+META["rule"] += (
+    " " + 'Added after the fifth round: the Surrogates queries include twin surrogates for two (dimension, delay) pairs at one threshold, the caller putting its embedding back through the setter afterwards.')
+
 def pre_import():
     from pvm.mon import shadow_cache
     shadow_cache.install()
